@@ -2776,7 +2776,7 @@ class NetCDFRead(IORead):
                     )
                     if n_nodes >= n_nodes_in_this_cell:
                         instance_index += 1
-                        i += k + 1
+                        i = k + 1
                         break
 
             self._set_ragged_contiguous_parameters(
